@@ -69,7 +69,15 @@ def list_strings(rnd):
     out = ['', ',', '1s:1s', '1s:', ':1s', '1s', '1s:1s,', ',1s:1s', '1s:2s,2s:4s', '1s:2s,,2s:4s', '1s:4s,2s:4s', '1s:4s,2s:8s',
            '1s:4s,3s:12s', '2s:4s,1s:8s', '1s:4s,1s:8s', '1s:1s,4s:8s', '7s:10s', '10s:7s', '0s:10s', '10s:0s', '1s:70y', '1s:68y,1m:69y',
            '1s:20y,60s:40y', '1m:1h,1h:1d,1d:1y', '60s:1d,5m:1w,1h:2y', '1s:2147483647s', '1s:2147483648s', '1s:4s:8s', '1s;4s',
-           '1s:4s, 2s:8s', '1S:4S', '1s:1m,1m:1m', '1s:59s,1m:1h', '1s:60s,1m:1h', '1s:61s,1m:1h', '2s:60s,1m:2m', '2s:118s,1m:2m']
+           '1s:4s, 2s:8s', '1S:4S', '1s:1m,1m:1m', '1s:59s,1m:1h', '1s:60s,1m:1h', '1s:61s,1m:1h', '2s:60s,1m:2m', '2s:118s,1m:2m',
+           # lists that are valid only in another order (the parser takes the list as written)
+           '1h:2d,1m:2h', '1m:2h,1d:32d,1h:2d', '1m:1h,1s:1m', '1d:1y,1s:1d,1m:30d', '60s:1h,1s:1m,3600s:30d']
+    lay = random_layout(rnd, levels=rnd.pick([2, 3, 4]))
+    if len(lay) >= 2:
+        sh = list(lay)
+        rnd.shuffle(sh)
+        out.append(retention_string(sh))
+        out.append(retention_string(list(reversed(lay))))
     for _ in range(4):
         out.append(retention_string(random_layout(rnd)))
     out += ['18446744073709551617s:1m', '1s:18446744073709551676s', '18446744073709551617s:18446744073709551676s,1m:1h', '4294967297s:4294967356s']
@@ -213,6 +221,9 @@ def boundary_layouts(rnd):
     out.append(('inner_ret_wrap_small', [(2 ** 20, 4097), (2 ** 21, 1000)]))
     out.append(('inner_ret_wrap_mid', [(2 ** 10, 4), (2 ** 20, 2048), (2 ** 21, 1023)]))
     out.append(('many_levels', [(1, 2), (2, 2), (4, 2), (8, 2), (16, 2), (32, 2)]))
+    nl = rnd.randint(7, 14)
+    out.append(('many_levels_%d' % nl, [(2 ** i_, 3) for i_ in range(nl)]))
+    out.append(('many_levels_9', [(3 ** i_, 4) for i_ in range(9)]))
     out.append(('points_wrap', [(1, 4), (4, 2 ** 32 - 1)]))
     return out
 
@@ -225,7 +236,7 @@ def gen_c07(rnd, n, thorough=False):
         def add(op, line):
             lines.append(line); tags['ops'][op] = tags['ops'].get(op, 0) + 1
         bl = boundary_layouts(rnd)
-        for tag, layout in rnd.sample(bl, 7) + [bl[0]] + [rnd.pick([b for b in bl if b[0].startswith('inner_')])] + [rnd.pick([b for b in bl if b[0].startswith('negative_')])]:
+        for tag, layout in rnd.sample(bl, 7) + [bl[0]] + [rnd.pick([b for b in bl if b[0].startswith('inner_')])] + [rnd.pick([b for b in bl if b[0].startswith('negative_')])] + [rnd.pick([b for b in bl if b[0].startswith('many_levels_')])]:
             tags['rules'][tag] = tags['rules'].get(tag, 0) + 1
             m = rnd.pick([1, 2, 3, 4, 5, 6]) if rnd.chance(0.8) else rnd.pick([0, 7, 8, 9, -1, 2 ** 31, 2 ** 32 + 2, 2 ** 32 + 1, -2 ** 32 + 3, 2 ** 33 + 6, 2 ** 32, 2 ** 40 + 5])
             xff = rnd.pick(XFF_VALID) if rnd.chance(0.75) else rnd.pick(XFF_ALL)
